@@ -12,7 +12,7 @@ Part 3: the `HashMap` bookkeeping (`known_digests`): every entry is the digest o
         (`Sound`), and the keys that are looked up are present.
 Part 4: the routines.
 -/
-namespace TF.MmrE
+namespace TF.MmrE.UpdAppend
 open TF TF.Gen TF.Model.Mmr TF.Model.MmrE TF.Spec.MmrE
 
 /-! ## Part 1: bit facts -/
@@ -781,4 +781,4 @@ theorem updateFromAppend_spec (n i : Nat) (hlt : i < n) (hn : n + 1 < 2 ^ 63) :
 
 end R
 
-end TF.MmrE
+end TF.MmrE.UpdAppend
